@@ -112,12 +112,12 @@ def StepOk (H : HashFn) (D : Decomp) (c : Ctx) (out : Bytes) : Step → Prop
   | .cont c' out' _ => (c'.hdr = c.hdr ∧ c'.dict = c.dict) ∧ Inv c' ∧ Rel H D c.hdr (out ++ c.dc) (out' ++ c'.dc)
   | .done r c' => (c'.hdr = c.hdr ∧ c'.dict = c.dict) ∧ Inv c' ∧
       (Rel H D c.hdr (out ++ c.dc) (r.bytes ++ c'.dc) ∨
-       (c'.err = true ∧ c'.dc = [] ∧ ∃ rest, out ++ c.dc = r.bytes ++ rest))
+       (c'.fatal = true ∧ c'.err = true ∧ c'.dc = [] ∧ ∃ rest, out ++ c.dc = r.bytes ++ rest))
 
 theorem stepOk_done (H : HashFn) (D : Decomp) (c : Ctx) (out : Bytes) (r : RdOut) (c' : Ctx) :
     StepOk H D c out (.done r c') = ((c'.hdr = c.hdr ∧ c'.dict = c.dict) ∧ Inv c' ∧
       (Rel H D c.hdr (out ++ c.dc) (r.bytes ++ c'.dc) ∨
-       (c'.err = true ∧ c'.dc = [] ∧ ∃ rest, out ++ c.dc = r.bytes ++ rest))) := rfl
+       (c'.fatal = true ∧ c'.err = true ∧ c'.dc = [] ∧ ∃ rest, out ++ c.dc = r.bytes ++ rest))) := rfl
 
 theorem stepOk_cont (H : HashFn) (D : Decomp) (c : Ctx) (out : Bytes) (c' : Ctx) (out' : Bytes) (fin : Bool) :
     StepOk H D c out (.cont c' out' fin) =
@@ -165,9 +165,9 @@ theorem stepEnd_ok (H : HashFn) (D : Decomp) (c : Ctx) (ki : Nat) (ch : Chunk) (
   unfold stepEnd
   split
   · rw [stepOk_done]
-    exact ⟨⟨rfl, rfl⟩, hI, Or.inr ⟨rfl, rfl, c.dc, rfl⟩⟩
+    exact ⟨⟨rfl, rfl⟩, hI, Or.inr ⟨rfl, rfl, rfl, c.dc, rfl⟩⟩
   · rw [stepOk_done]
-    exact ⟨⟨rfl, rfl⟩, hI, Or.inr ⟨rfl, rfl, c.dc, rfl⟩⟩
+    exact ⟨⟨rfl, rfl⟩, hI, Or.inr ⟨rfl, rfl, rfl, c.dc, rfl⟩⟩
   · rename_i c2 hok
     obtain ⟨h1, h1d, h2, h3, plain, hg, hdc⟩ := endDchunk_ok H D c ki ch useDict c2 hz hI.1 hm hok
     rw [stepOk_cont]
@@ -248,7 +248,7 @@ theorem step_ok (H : HashFn) (D : Decomp) (f : Bytes) (n : Nat) (useDict : Bool)
 /-- outcome of a whole call, relative to the buffer `a` it started with -/
 def CallOk (H : HashFn) (D : Decomp) (hdr : Hdr) (a : Bytes) (r : RdOut) (c' : Ctx) : Prop :=
   Rel H D hdr a (r.bytes ++ c'.dc) ∨
-  (c'.err = true ∧ c'.dc = [] ∧ ∃ mid rest, Rel H D hdr a mid ∧ mid = r.bytes ++ rest)
+  (c'.fatal = true ∧ c'.err = true ∧ c'.dc = [] ∧ ∃ mid rest, Rel H D hdr a mid ∧ mid = r.bytes ++ rest)
 
 theorem readLoop_ok (H : HashFn) (D : Decomp) (f : Bytes) (n : Nat) (useDict : Bool) (hdr : Hdr)
     (hz : hdr.compType ≠ 0) :
@@ -273,9 +273,9 @@ theorem readLoop_ok (H : HashFn) (D : Decomp) (f : Bytes) (n : Nat) (useDict : B
       obtain ⟨h1, h2, h3⟩ := hs
       refine ⟨⟨by simp [h1.1, hh], h1.2⟩, h2, ?_⟩
       rw [hh] at h3
-      rcases h3 with h3 | ⟨e1, e2, rest, e3⟩
+      rcases h3 with h3 | ⟨e0, e1, e2, rest, e3⟩
       · exact Or.inl h3
-      · exact Or.inr ⟨e1, e2, out ++ c.dc, rest, Rel.refl _ _ _ _, e3⟩
+      · exact Or.inr ⟨e0, e1, e2, out ++ c.dc, rest, Rel.refl _ _ _ _, e3⟩
     | cont c' out' fin' =>
       rw [stepOk_cont] at hs
       obtain ⟨h1, h2, h3⟩ := hs
@@ -283,9 +283,9 @@ theorem readLoop_ok (H : HashFn) (D : Decomp) (f : Bytes) (n : Nat) (useDict : B
       have ih := readLoop_ok H D f n useDict hdr hz fuel c' out' fin' (by rw [h1.1, hh]) h2
       obtain ⟨i1, i2, i3⟩ := ih
       refine ⟨⟨i1.1, by rw [i1.2, h1.2]⟩, i2, ?_⟩
-      rcases i3 with i3 | ⟨e1, e2, mid, rest, e3, e4⟩
+      rcases i3 with i3 | ⟨e0, e1, e2, mid, rest, e3, e4⟩
       · exact Or.inl (Rel.trans h3 i3)
-      · exact Or.inr ⟨e1, e2, mid, rest, Rel.trans h3 e3, e4⟩
+      · exact Or.inr ⟨e0, e1, e2, mid, rest, Rel.trans h3 e3, e4⟩
 
 /-- a dictionary that is needed but not loaded yet means nothing has been decoded yet -/
 def InvD (c : Ctx) : Prop :=
